@@ -570,8 +570,16 @@ def __Solver_2(simu: "_Simu", problemType: "ProblemType"):
     A = A.tolil()
     b = b.tolil()
 
-    dofs_Dirichlet = simu.Bc_dofs_Dirichlet(problemType)
-    values_Dirichlet = simu.Bc_values_Dirichlet(problemType)
+    # a dof entered several times holds the sum of its entries (as in __Solver_1);
+    # one multiplier row per dof, otherwise the bordered system has identical rows.
+    dofs_Dirichlet, inverse = np.unique(
+        simu.Bc_dofs_Dirichlet(problemType), return_inverse=True
+    )
+    values_Dirichlet = np.bincount(
+        inverse,
+        weights=simu.Bc_values_Dirichlet(problemType),
+        minlength=dofs_Dirichlet.size,
+    )
 
     list_Bc_Lagrange = simu.Bc_Lagrange
 
